@@ -28,7 +28,7 @@ type c12Slot struct {
 }
 
 var c12Modes = []string{"compiled x shared document", "compiled x per-goroutine documents", "one-shot Search x shared document", "concurrent Compile/MustCompile", "NewParser per goroutine",
-	"compiled x shared Go-struct document", "one-shot Search x shared Go-struct document", "one-shot Search x many distinct expressions in rotation", "compiled x different documents, some failing, several calls per goroutine", "compiled x prefix views of one list (same first element, different lengths)", "compiled x shared Go-struct document next to parses of never-seen expressions"}
+	"compiled x shared Go-struct document", "one-shot Search x shared Go-struct document", "one-shot Search x many distinct expressions in rotation", "compiled x different documents, some failing, several calls per goroutine", "compiled x prefix views of one list (same first element, different lengths)", "compiled x shared Go-struct document next to parses of never-seen expressions", "one expression x shared documents of different kinds, hundreds of calls per goroutine"}
 
 func gcd(a, b int) int {
 	for b != 0 {
@@ -140,7 +140,7 @@ func c12Exprs(seed uint64) []*gen.Expr {
 }
 
 func c12(r *mon.Run) {
-	r.Rule = "rounds of N in {2,4,16} goroutines released together (GOMAXPROCS 2 and 16), with no synchronisation between them until they are joined: (a) one compiled expression on one shared document, (b) one compiled expression on per-goroutine documents, (c) the one-shot Search on a shared document, (d) concurrent Compile / MustCompile of the same and of different expressions, (e) NewParser per goroutine, (f) a freshly compiled expression and (g) the one-shot Search on a shared Go-struct document (reflection paths; the first calls on a type are the concurrent ones), (h) the one-shot Search with 70 / 140 / 300 distinct expressions in rotation, every goroutine in its own order (package-level caches see hits, misses and evictions at once), (i) one compiled expression whose wildcard / projection right-hand side fails on a quarter of 8 documents, 12 calls per goroutine over those documents (error paths of one call meet the scratch state of another), (j) one compiled expression on documents that are prefixes of one list (same address, different lengths: whatever identifies the same call must look at all of the document), (k) searches of a shared Go-struct document next to goroutines that parse expressions with identifiers nobody has used before; " +
+	r.Rule = "rounds of N in {2,4,16} goroutines released together (GOMAXPROCS 2 and 16), with no synchronisation between them until they are joined: (a) one compiled expression on one shared document, (b) one compiled expression on per-goroutine documents, (c) the one-shot Search on a shared document, (d) concurrent Compile / MustCompile of the same and of different expressions, (e) NewParser per goroutine, (f) a freshly compiled expression and (g) the one-shot Search on a shared Go-struct document (reflection paths; the first calls on a type are the concurrent ones), (h) the one-shot Search with 70 / 140 / 300 distinct expressions in rotation, every goroutine in its own order (package-level caches see hits, misses and evictions at once), (i) one compiled expression whose wildcard / projection right-hand side fails on a quarter of 8 documents, 12 calls per goroutine over those documents (error paths of one call meet the scratch state of another), (j) one compiled expression on documents that are prefixes of one list (same address, different lengths: whatever identifies the same call must look at all of the document), (k) searches of a shared Go-struct document next to goroutines that parse expressions with identifiers nobody has used before, (l) one expression (compiled in half of the rounds, one-shot in the other half) on 8 shared documents in which the argument of a function that accepts several kinds is an array of numbers in one document and of strings in the next (a string, an array, an object), 50-6000 calls per goroutine, and comparisons of 400-element containers of equal length that live in the shared documents and differ in their last element (whatever a call remembers about the last argument, or about a comparison in progress, is its own); " +
 		"expressions: the function matrix of C06 with document-fed and literal-fed arguments (literals live in the shared AST), sorts of sorts, six expressions 260 operators deep or long (|| and && chains as filter conditions over 24 elements, pipes, nots, nested multi-selects), raw-string-heavy expressions, every node kind, seeded random trees. Monitors: the race detector (any report with a library frame), every goroutine's result against the reference model's allowed set, the compiled AST before/after, and the process surviving (fatal errors are seen by the driver). " +
 		"Non-trivial = distinct (mode, N, expression) rounds whose calls really overlapped in time (measured from per-goroutine timestamps)."
 	r.Floor = 200
@@ -163,6 +163,8 @@ func c12(r *mon.Run) {
 		gen.Func("map", gen.ExpRef(gen.Func("map", gen.ExpRef(gen.Current()), gen.MultiList(gen.Field("i"), gen.Field("n")))), gen.Current()), gen.Func("length", gen.Func("map", gen.ExpRef(gen.Func("to_string", gen.Field("i"))), gen.Current())),
 		gen.Func("reverse", gen.Func("map", gen.ExpRef(gen.Field("i")), gen.Current())), gen.Func("join", gen.Raw(","), gen.Func("map", gen.ExpRef(gen.Func("to_string", gen.Field("i"))), gen.Current()))}
 	var baseDoc interface{} = c06BaseDoc()
+	polyTrees, polyCalls, polyDocsL := c12Poly(r.Tier == "quick")
+	polySnap := mon.Snapshot(polyDocsL)
 	rounds := tierPick(r, 7000, 100000)
 	prevProcs := runtime.GOMAXPROCS(0)
 	defer runtime.GOMAXPROCS(prevProcs)
@@ -177,11 +179,16 @@ func c12(r *mon.Run) {
 				return
 			}
 			tree := trees[(i/len(c12Modes))%len(trees)]
-			N := []int{2, 4, 16}[(i/7)%3]
+			q := i/len(c12Modes) + mode // (the round number within the mode, shifted per mode so that the modes differ)
+			N := []int{2, 4, 16}[(q/2)%3]
 			if mode == 7 && N > 8 {
 				N = 8 // (every goroutine makes up to 300 calls in this mode)
 			}
-			procs := []int{16, 2}[(i/3)%2]
+			procs := []int{16, 2}[q%2]
+			if mode == 11 && r.Tier == "quick" && (i/len(c12Modes))%2 != 0 {
+				t.Count("many-call rounds left to the thorough tier")
+				return
+			}
 			runtime.GOMAXPROCS(procs)
 			rng := gen.DeriveN(r.Seed, "c12round", i)
 			var doc interface{} = baseDoc
@@ -245,6 +252,32 @@ func c12(r *mon.Run) {
 					pviews = append(pviews, interface{}(v))
 					pres = append(pres, ref.RefSet(tree, v, gen.Quirks{}))
 				}
+			}
+			var pcalls int // mode 11
+			var pbad []string
+			if mode == 11 {
+				pi := (i / len(c12Modes) / 2) % len(polyTrees)
+				if r.Tier != "quick" {
+					pi = (i / len(c12Modes)) % len(polyTrees)
+				}
+				tree = polyTrees[pi]
+				expr = gen.Spell(tree)
+				j2, co2 := apiCompile(expr)
+				if co2.Panicked || co2.Err != nil {
+					r.Inconclusive("C12 workload expression does not compile: " + expr)
+					return
+				}
+				jp = j2
+				before = jmespath.VerifSexpr(jmespath.VerifAST(jp))
+				wres = wres[:0]
+				for _, d := range polyDocsL {
+					wres = append(wres, ref.RefSet(tree, d, gen.Quirks{}))
+				}
+				pcalls = polyCalls[pi]
+				if procs < N {
+					pcalls = pcalls * 2 * procs / N // (goroutines that take turns on two processors: fewer calls each, same wall time)
+				}
+				pbad = make([]string, N)
 			}
 			otherExpr := gen.Spell(trees[(i*31+7)%len(trees)])
 			// mode 7: a window of W distinct expressions, each goroutine visits all of them in its own order
@@ -322,6 +355,25 @@ func c12(r *mon.Run) {
 								apiCompile(fmt.Sprintf("other_%d_%d.%s", i, j, docs.KeyName("Name", j%2 == 0)))
 							}
 						}
+					case 11:
+						// every goroutine walks the same shared documents from its own starting point; even rounds use the
+						// compiled expression, odd ones the one-shot Search. Each answer is compared here (the expected
+						// outcomes are only read), so that only the first deviation has to be kept.
+						oneShot := (i/len(c12Modes))%4 >= 2
+						for j := 0; j < pcalls; j++ {
+							d := (k*3 + j) % len(polyDocsL)
+							var o mon.Observed
+							if oneShot {
+								o = apiSearch(expr, polyDocsL[d])
+							} else {
+								o = apiJP(jp, polyDocsL[d])
+							}
+							if o.Panicked || (wres[d].Skipped == "" && !wres[d].DontCare && !matches(wres[d], o)) {
+								pbad[k] = fmt.Sprintf("goroutine %d of %d, call %d, document %d: %s (made alone: %s)", k, N, j, d, clipStr(o.String(), 300), clipStr(expectedString(wres[d]), 300))
+								s.o = o
+								break
+							}
+						}
 					case 9:
 						s.o = apiJP(jp, pviews[k])
 					case 8:
@@ -360,7 +412,13 @@ func c12(r *mon.Run) {
 			}
 			close(gate)
 			wg.Wait()
-			t.Evals(N * (1 + len(wexprs)))
+			t.Evals(N * (1 + len(wexprs) + pcalls))
+			if mode == 11 {
+				if now := mon.Snapshot(polyDocsL); now != polySnap {
+					r.Violate(&mon.Violation{Workload: "rounds", Index: i, API: c12Modes[mode], Expr: expr, DocDesc: "the 8 shared documents of mode (l)", Expected: "shared documents unchanged", Observed: clipStr(now, 600), Class: "shared document modified"})
+					return
+				}
+			}
 			// monitors
 			rep := rl.Grown()
 			if rep != "" {
@@ -381,6 +439,12 @@ func c12(r *mon.Run) {
 					return
 				}
 				switch mode {
+				case 11:
+					if pbad[k] != "" {
+						r.Violate(&mon.Violation{Workload: "rounds", Index: i, API: c12Modes[mode], Expr: expr, DocDesc: "8 shared documents whose members differ in kind from one document to the next (arrays of numbers / of strings, strings / arrays / objects, large unequal containers of equal length)",
+							Expected: "what the same call returns when made alone", Observed: pbad[k], Class: "concurrent calls over documents of different kinds: result differs"})
+						return
+					}
 				case 9:
 					if pres[k].Skipped == "" && !pres[k].DontCare && !matches(pres[k], s.o) {
 						r.Violate(&mon.Violation{Workload: "rounds", Index: i, API: c12Modes[mode], Expr: expr, DocDesc: fmt.Sprintf("the first %d of %d elements of one list", len(pviews[k].([]interface{})), len(pvList)),
@@ -483,4 +547,72 @@ func c12(r *mon.Run) {
 		}}
 	r.Exec(w)
 	r.Extra["race_log_active"] = rl != nil
+}
+
+// c12Poly: mode (l). Expressions whose argument is of a different kind from one document to the next (functions
+// that accept several kinds), and comparisons of large containers that live in the shared documents; with the number
+// of calls each goroutine makes per round.
+func c12Poly(quick bool) ([]*gen.Expr, []int, []interface{}) {
+	f := func(n string) *gen.Expr { return gen.Field(n) }
+	k := func() *gen.Expr { return gen.ExpRef(gen.Field("k")) }
+	cheap, dear := 1000, 50
+	if !quick {
+		cheap, dear = 6000, 300
+	}
+	type tc struct {
+		e *gen.Expr
+		n int
+	}
+	cases := []tc{
+		{gen.Func("max", f("p")), cheap}, {gen.Func("min", f("p")), cheap}, {gen.Func("sort", f("p")), cheap}, {gen.MultiList(gen.Func("max", f("p")), gen.Func("min", f("p")), gen.Func("sort", f("p"))), cheap},
+		{gen.Func("length", f("q")), cheap}, {gen.Func("reverse", f("q2")), cheap}, {gen.Func("contains", f("q2"), gen.Raw("a")), cheap}, {gen.Chain(gen.Func("max_by", f("pr"), k()), gen.StField("i")), cheap},
+		{gen.Chain(gen.Func("sort_by", f("pr"), k()), gen.StListStar(), gen.StField("i")), cheap}, {gen.Chain(gen.Func("min_by", f("pr"), k()), gen.StField("i")), cheap}, {gen.MultiList(gen.Func("to_number", f("v")), gen.Func("to_string", f("v")), gen.Func("type", f("v"))), cheap},
+		{gen.Func("join", gen.Raw(","), f("p")), cheap}, {gen.Func("sum", f("p")), cheap}, {gen.Func("not_null", f("z"), f("p")), cheap}, {gen.Func("to_array", f("v")), cheap},
+		{gen.Cmp("==", f("l"), f("r")), dear}, {gen.Cmp("!=", f("l"), f("r")), dear}, {gen.Cmp("==", f("lo"), f("ro")), dear}, {gen.Chain(f("rows"), gen.StFilter(gen.Cmp("==", f("left"), f("right"))), gen.StField("id")), dear},
+		{gen.Func("contains", f("lists"), f("r")), dear}, {gen.MultiList(gen.Cmp("==", f("l"), f("r")), gen.Cmp("==", f("r"), f("l")), gen.Cmp("==", f("l"), f("l"))), dear}, {gen.Chain(f("rows"), gen.StFilter(gen.Cmp("!=", f("left"), f("right"))), gen.StField("id")), dear},
+	}
+	var trees []*gen.Expr
+	var calls []int
+	for _, c := range cases {
+		trees = append(trees, c.e)
+		calls = append(calls, c.n)
+	}
+	var ds []interface{}
+	for d := 0; d < 8; d++ {
+		nums := d%2 == 0
+		var p, q, q2, v interface{}
+		var pr []interface{}
+		if nums {
+			p, v = []interface{}{float64(1), float64(10 + d), float64(3)}, float64(d)+0.5
+			pr = []interface{}{map[string]interface{}{"k": float64(2), "i": float64(0)}, map[string]interface{}{"k": float64(9 - d), "i": float64(1)}, map[string]interface{}{"k": float64(2), "i": float64(2)}}
+		} else {
+			p, v = []interface{}{"a", fmt.Sprintf("p%d", d), "c"}, fmt.Sprint(d*3)
+			pr = []interface{}{map[string]interface{}{"k": "m", "i": float64(0)}, map[string]interface{}{"k": fmt.Sprintf("%c", 'a'+d*3), "i": float64(1)}, map[string]interface{}{"k": "m", "i": float64(2)}}
+		}
+		switch d % 3 {
+		case 0:
+			q, q2 = "h\u00e9llo", "banana"
+		case 1:
+			q, q2 = []interface{}{float64(1), "a"}, []interface{}{"b", "a"}
+		default:
+			q, q2 = map[string]interface{}{"x": float64(1), "y": nil}, []interface{}{"x", float64(1)}
+		}
+		// twins: two containers of equal length that differ in their last element only (equal in documents 2 and 6)
+		const L = 400
+		l, rr := make([]interface{}, L), make([]interface{}, L)
+		lo, ro := map[string]interface{}{}, map[string]interface{}{}
+		for e := 0; e < L; e++ {
+			l[e], rr[e] = float64(e), float64(e)
+			if e < 120 {
+				lo[fmt.Sprint("k", e)], ro[fmt.Sprint("k", e)] = []interface{}{float64(e), "x"}, []interface{}{float64(e), "x"}
+			}
+		}
+		if d%4 != 2 {
+			rr[L-1] = float64(-1)
+			ro["k119"] = []interface{}{float64(119), "y"}
+		}
+		rows := []interface{}{map[string]interface{}{"id": float64(0), "left": l, "right": rr}, map[string]interface{}{"id": float64(1), "left": l, "right": l}, map[string]interface{}{"id": float64(2), "left": lo, "right": ro}, map[string]interface{}{"id": float64(3), "left": rr, "right": l}}
+		ds = append(ds, map[string]interface{}{"p": p, "q": q, "q2": q2, "v": v, "pr": pr, "z": nil, "l": l, "r": rr, "lo": lo, "ro": ro, "rows": rows, "lists": []interface{}{l, lo, "x"}})
+	}
+	return trees, calls, ds
 }
